@@ -229,6 +229,9 @@ StatusTags(exp, got) ==
        \cup (IF StChecksum \in both THEN {"C02", "C05", "C01", "C06"} ELSE {})
        \cup (IF StFormat \in both THEN {"C06", "C14"} ELSE {})
        \cup (IF both \cap {StNumWords, StLang, StMultLang} # {} THEN {"C01", "C07", "C08", "C09", "C14", "C19"} ELSE {})
+       \* (C02: "for any 15 data words and coin there is exactly one check word that validates" - a phrase that is valid
+       \* and is refused, for whatever reason, leaves its 15 data words with no check word that validates)
+       \cup (IF exp = StOK /\ got # StOK THEN {"C02"} ELSE {})
 
 \* the ledger: what may be live after the call
 LedgerConds(r, newblk) ==
@@ -307,7 +310,10 @@ RetEvalWith(r, dexp, newseed) ==
             LET exp == dexp
             IN ConstructorConds(r, exp.st) \o
                LedgerConds(r, IF r.st = StOK THEN r.blk ELSE 0) \o
-               << Cond("normalised-iff-non-ascii", {"C13", "C19", "C08"},
+               \* (the model knows the decomposed form only from the injected normaliser's answer: a decoder that does not ask
+               \* it for a string that needs it cannot have decided the string by its decomposed form - whatever it returns,
+               \* it is not what the decoding properties state)
+               << Cond("normalised-iff-non-ascii", {"C13", "C19", "C08", "C09", "C01", "C14"},
                        NeedsNfkd(a.str, StrSize) => Count("Nfkd") = 1),
                   Cond("detected-language", {"C09", "C01", "C13"},
                        (op = "Decode" /\ a.wantlang /\ r.st = StOK /\ exp.st = StOK) => r.langout = G(exp.lang).id),
